@@ -293,10 +293,13 @@ impl VxNode {
         // C13: the restored tracker checks attestations against the oracles configured now
         r.tracker_oracles() == services.oracles_spec(),                                                //[C13.restore.oracles-from-config]
 //@sub /node_config\.allow_deep_reorgs/ => node_config.vx_allow_deep_reorgs()
-//@sub /(?s)for \(channel_id0, channel_entry\) in\s*persister\.get_node_channels\(&node_id\)\.vx_expect\(\)\s*\{/ => let vx_entries = persister.get_node_channels(&node_id).vx_expect(); for vx_entry in vx_entries { let (channel_id0, channel_entry) = vx_entry; let ghost vx_id0 = channel_id0; let ghost vx_e = channel_entry;
+//@sub /(?s)for \(channel_id0, channel_entry\) in\s*persister\.get_node_channels\(&node_id\)\.vx_expect\(\)\s*\{/ => let ghost mut vx_done: int = 0; let vx_entries = persister.get_node_channels(&node_id).vx_expect(); for vx_entry in vx_entries { let (channel_id0, channel_entry) = vx_entry; let ghost vx_id0 = channel_id0; let ghost vx_e = channel_entry;
 //@sub /monitor: monitor_base\.clone\(\),/ => monitor: monitor_base.clone(), persisted: Ghost(vx_e.enforcement_state),
 //@loop 1 iter=it
             invariant
+                // every stored channel record goes through one of the two registration blocks below (no record is skipped):
+                // the blocks count, and the count keeps up with the records
+                vx_done == it.index@,                                                                           //[C11.restore.no-stored-channel-skipped] [C15.restore.no-stored-channel-skipped]
                 forall|i: int| 0 <= i < vx_entries@.len() && (#[trigger] vx_entries@[i]).1.channel_setup.is_some() ==>
                     setup_from_store(vx_entries@[i].1.channel_setup->Some_0),
 //@proof blockend /let stub = ChannelStub \{/
@@ -305,6 +308,7 @@ impl VxNode {
                         assert(channels@.contains_key(vx_id0) && channels@[vx_id0]@ == slot@);                                  //[C15.restore.stub-registered-under-id0]
                         assert(Self::restored_slot(node.keys_manager(), vx_id0, vx_e, slot@));                  //[C18.restore.stub-keys-from-id0]
                         assert(vx_e.id.is_some() ==> channels@.contains_key(vx_e.id->Some_0) && channels@[vx_e.id->Some_0]@ == slot@); //[C15.restore.stub-registered-under-permanent-id]
+                        vx_done = vx_done + 1;
                     }
 //@proof before /let \(tracker_state, tracker_slot\) =/
                     let ghost vx_l0 = listeners;
@@ -326,6 +330,7 @@ impl VxNode {
                         // C18: same keys as at creation (derived from id0, not from the permanent id);
                         // C11: enforcement state and setup exactly as persisted; C15: both ids kept
                         assert(Self::restored_slot(node.keys_manager(), vx_id0, vx_e, slot@));                  //[C18.restore.channel-keys-from-id0] [C11.restore.channel-state-verbatim]
+                        vx_done = vx_done + 1;
                     }
 //@end
 
